@@ -268,9 +268,21 @@ def body_search(kind: int, s: str, emptysel: bool = False) -> bool:
         else:
             req, tls = rl.client_request(kind, "/wap/d" if kind == 3 else ("" if (emptysel and kind in (0, 1, 6)) else "/d"), s)
             if kind == 4:
-                # urlparse realizes: contract stub returning the raw components
-                gemini.urllib = hx.ns(parse=hx.ns(urlparse=lambda u: hx.ns(path="/d", query=s), unquote=unquote, quote=urllib.parse.quote, unquote_plus=urllib.parse.unquote_plus, urlsplit=urllib.parse.urlsplit))
+                # urlparse realizes: contract stub returning the raw components of whatever URL is asked for
+                state = {"path": "/GEMINI-QUERY/d" if emptysel else "/d", "query": s}
+                gemini.urllib = hx.ns(parse=hx.ns(urlparse=lambda u: hx.ns(path=state["path"], query=state["query"]), unquote=unquote, quote=urllib.parse.quote, unquote_plus=urllib.parse.unquote_plus, urlsplit=urllib.parse.urlsplit))
             try:
+                if kind == 4 and emptysel:
+                    # the search item's own flow: /GEMINI-QUERY/d?s  ->  30 redirect  ->  follow it
+                    w0 = hx.ListWriter()
+                    p0 = dl.make_protocol(4, "/x", cfg, w0)
+                    p0.handle()
+                    red = w0.gettext()
+                    hx.require(red.startswith("30 ") and red.endswith("\r\n"), "C06:gemini-search-redirect-missing", lambda: repr(red))
+                    loc = red[3:-2]
+                    hx.require(loc.endswith("?" + s), "C06:gemini-search-redirect-loses-query", lambda: repr(red))
+                    state["path"], state["query"] = loc[: len(loc) - len(s) - 1], s
+                    del calls[:]
                 seen, pname = rl.follow(kind, req, tls, cfg)
             finally:
                 if kind == 4:
@@ -290,6 +302,8 @@ def body_search(kind: int, s: str, emptysel: bool = False) -> bool:
         want = s  # StrLine.decode stands for bytes.decode(errors=surrogateescape)
     else:
         want = "U(" + s + ")"
+        if kind == 4 and emptysel:
+            hx.require(seen[0][0] == "/U(/d)" or seen[0][0] == "U(/d)", "C06:gemini-search-redirect-changes-selector", lambda: "after the redirect the selector reached handler selection as %r" % (seen[0][0],))
         dec = [c for c in calls if c[0] in ("unquote", "parse_qs") and (c[1] == s or c[1] == "searchrequest=" + s)]
         hx.require(len(dec) == 1, "C06:search-decoding-layers:%s" % dl.PROTO_NAMES[kind], lambda: "calls=%r" % (calls,))
         hx.require(dec[0][2] == "surrogateescape", "C06:search-decoder-error-handler:%s" % dl.PROTO_NAMES[kind], lambda: "calls=%r" % (calls,))
